@@ -1,1 +1,23 @@
-fn main() {}
+//! l1conn: runtime monitors; usage: l1conn <property> --seed S --tier quick|thorough --shard i --shards n [--budget N] --out frag.json [--replay file]
+mod c06;
+mod c14;
+mod c16;
+
+use vcore::{Args, Report};
+
+fn main() {
+    let args = Args::parse();
+    let prop = args.pos.first().cloned().unwrap_or_default();
+    vcore::panics::install(!args.flag("loud"));
+    let mut rep = Report::new(&prop.to_uppercase(), args.seed());
+    match prop.as_str() {
+        "c06" => c06::run(&args, &mut rep),
+        "c14" => c14::run(&args, &mut rep),
+        "c16" => c16::run(&args, &mut rep),
+        other => {
+            eprintln!("unknown property {other}");
+            std::process::exit(2);
+        }
+    }
+    rep.finish(args.get("out"));
+}
